@@ -77,7 +77,7 @@ func CleanDomain(addr string) (string, error) {
 		return addr, err
 	}
 
-	uDomain, err := idna.ToUnicode(domain)
+	uDomain, err := idna.ToUnicode(dns.LowerASCII(domain))
 	if err != nil {
 		return addr, err
 	}
